@@ -465,6 +465,74 @@ fn main() {
         );
     }
 
+    // ------------------------------------------------------------ after a rejected registration
+    // "Once a set of templates has been accepted, rendering any of them never panics" also after a
+    // LATER registration was refused: every accepted base set x every refused batch, then every
+    // template and component of the instance under the totality oracle (seeded change C07-3: the
+    // component table of a refused batch stayed behind and rendering panicked).
+    {
+        let bases: Vec<(&str, Vec<(&str, &str)>)> = vec![
+            ("components", vec![("widgets.html", "{% component Btn() %}old{% endcomponent Btn %}"), ("page.html", "[{{ <Btn /> }}]")]),
+            ("inheritance", vec![("base.html", "<{% block a %}A{% endblock %}>"), ("child.html", "{% extends \"base.html\" %}{% block a %}{{ super() }}c{% endblock %}")]),
+            ("include", vec![("inc.html", "i{{ 1 }}"), ("main.html", "m{% include \"inc.html\" %}")]),
+            ("all", vec![
+                ("widgets.html", "{% component Btn() %}old{% endcomponent Btn %}"),
+                ("base.html", "<{% block a %}A{{ <Btn /> }}{% endblock %}>"),
+                ("child.html", "{% extends \"base.html\" %}{% block a %}{{ super() }}c{% include \"inc.html\" %}{% endblock %}"),
+                ("inc.html", "i{{ <Btn /> }}"),
+            ]),
+        ];
+        let refused: Vec<(&str, Vec<(&str, &str)>)> = vec![
+            ("component-redefined-with-unknown-filter", vec![("widgets.html", "{% component Btn() %}new{{ 1 | no_such_filter }}{% endcomponent Btn %}")]),
+            ("new-component-with-unknown-test", vec![("extra.html", "{% component Fresh() %}f{{ 1 is no_such_test }}{% endcomponent Fresh %}")]),
+            ("new-component-then-unknown-function", vec![("extra.html", "{% component Fresh() %}f{% endcomponent Fresh %}"), ("extra2.html", "{{ no_such_fn() }}")]),
+            ("parent-loses-the-block", vec![("base.html", "no block")]),
+            ("syntax-error", vec![("inc.html", "{% if %}")]),
+            ("valid-then-syntax-error", vec![("ok.html", "fine{{ <Btn /> }}"), ("bad.html", "{% if x %}")]),
+            ("component-body-includes-missing", vec![("widgets.html", "{% component Btn() %}{% include \"nowhere.html\" %}{% endcomponent Btn %}")]),
+            ("include-cycle", vec![("inc.html", "{% include \"main.html\" %}{% include \"child.html\" %}")]),
+            ("unknown-component-call", vec![("page2.html", "{{ <Nope /> }}")]),
+            ("duplicate-component", vec![("dup.html", "{% component Btn() %}dup{% endcomponent Btn %}")]),
+        ];
+        let nb = bases.len() as u64;
+        let nr = refused.len() as u64;
+        run.family(
+            Family::new(
+                "after-rejected-add",
+                nb * nr * nr,
+                &format!("{nb} accepted base sets x every sequence of 2 of {nr} later registrations that must be refused (unknown filter / test / function / component, orphaned block, syntax error alone and after a valid template, dangling include in a component body, include cycle, duplicate component): every template, block and component of the instance under the totality oracle after each refusal"),
+            ),
+            |item, acc: &mut Acc| {
+                let (bname, base) = &bases[(item % nb) as usize];
+                let seq = [&refused[((item / nb) % nr) as usize], &refused[(item / nb / nr) as usize]];
+                let mut t = Tera::default();
+                let owned = |v: &Vec<(&str, &str)>| v.iter().map(|(n, s)| (n.to_string(), s.to_string())).collect::<Vec<_>>();
+                if !engine::add_templates(&mut t, &owned(base)).is_ok() {
+                    acc.violation("base-set-refused", format!("the base set `{bname}` was refused"), || json!({"base": base}));
+                    return;
+                }
+                let ctx = bind(&[V::I64(1), V::I64(2), V::I64(3)]);
+                for (k, (rname, batch)) in seq.iter().enumerate() {
+                    let r = engine::add_templates(&mut t, &owned(batch));
+                    let case = || json!({"base": base, "then_refused": seq.iter().take(k + 1).map(|(n, b)| json!({"kind": n, "batch": b})).collect::<Vec<_>>()});
+                    if let Out::Panic(p) = &r {
+                        acc.violation("panic:add-after-rejected", format!("add_raw_templates panicked: {p}"), case);
+                    }
+                    if r.is_ok() {
+                        // this batch happens to be acceptable on this base (e.g. no child needs the block): fine
+                        acc.case(false, &format!("accepted:{rname}"));
+                    }
+                    let mut names: Vec<String> = t.get_template_names().map(|s| s.to_string()).collect();
+                    names.sort();
+                    for name in &names {
+                        let prog = Program { templates: vec![], entry: name.clone(), blocks: vec!["a".into()], components: vec!["Btn".into(), "Fresh".into()] };
+                        totality(&t, &prog, &ctx, acc, "after-rejected-add", "after-refusal", true, &case);
+                    }
+                }
+            },
+        );
+    }
+
     // ------------------------------------------------------------ reuse: C02 / C03 program spaces
     const SHARDS: u64 = 32;
     run.family(
